@@ -397,6 +397,12 @@ def run(ctx):
             try:
                 t = Mixed(["x", "y"], ["i", "j"], [1, 2], [1.0, 2.0], [True, False], [2, 3], [[1, 2], []], pre)
                 got = t.dna.tolist()
+                other = Mixed(["z"], ["k"], [3], [3.0], [True], [4], [[5]], ["GATTACA"])
+                for order, cat in (("pre-first", np.concatenate([t, other])), ("pre-last", np.concatenate([other, t]))):
+                    gotc = cat.dna.tolist()
+                    wantc = [text, text[:1], "GATTACA"] if order == "pre-first" else ["GATTACA", text, text[:1]]
+                    ctx.check("construct-converts", gotc == wantc, "construct/pre-encoded-column-relabelled:after-concatenation", "DNA column built from %s-encoded %r, concatenated (%s) with an ordinary table, reads %r" % (src_name, text, order, gotc),
+                              {"source_encoding": src_name, "text": text, "got": gotc, "order": order}, ("precat", src_name, text, order))
                 ctx.check("construct-converts", got == [text, text[:1]], "construct/pre-encoded-column-relabelled", "DNA column built from %s-encoded %r reads %r" % (src_name, [text, text[:1]], got), {"source_encoding": src_name, "text": text, "got": got}, ("pre", src_name, text))
             except Exception:
                 ctx.judged("construct-raises", ("pre", src_name, text))
